@@ -91,6 +91,37 @@ def _judge(op: L.Op, call, sp=None):
             return (f"patched-accepts-onnx-rejects:{op.name}",
                     f"{op.name} (inference supplemented by spox): the constructor accepted a call that ONNX strict inference rejects: {outs[0].get('msg', '')[:120]}",
                     info)
+        if not raised:
+            # accepted by both: the supplement may say MORE than ONNX (that is what it is for), never
+            # less and nothing else; outputs the supplement does not speak about must be ONNX's own
+            worst = None
+            for o in outs:
+                if o["reject"]:
+                    continue
+                rels = [L.ty_relation(a, b) for a, b in zip(sp["types"], o["types"])]
+                if len(sp["types"]) != len(o["types"]):
+                    rels.append("contradicts")
+                if op.name == "Loop":  # the supplement is about the loop-carried outputs only
+                    nc = len(call["args"][2] or [])
+                    rels = [r if i < nc or r == "eq" else "differs" for i, r in enumerate(rels)]
+                bad = [r for r in rels if r not in ("eq", "refines")]
+                if not bad:
+                    worst = None
+                    break
+                rank = ["differs", "contradicts", "untyped", "weaker"]
+                w = min(bad, key=rank.index)
+                if worst is None:
+                    worst = (w, o, rels)
+            if worst is not None:
+                w, o, rels = worst
+                info["relation_to_onnx"] = rels
+                if w == "differs":
+                    return (f"types-differ:{op.name}",
+                            f"{op.name}: output Var types {sp['types']} differ from ONNX's {o['types']} on an output the supplement does not speak about", info)
+                return (f"patched-types-{w}:{op.name}",
+                        f"{op.name} (inference supplemented by spox): output Var types {sp['types']} vs ONNX's {o['types']}: "
+                        + {"contradicts": "contradict what ONNX infers", "untyped": "an output is left untyped although every input is typed and ONNX infers a type",
+                           "weaker": "forget part of what ONNX infers"}[w], info)
         return (None, "", info)
     if raised and all(o["reject"] for o in outs) and L.has_optional_outputs(op):
         # the constructor always asks for every optional output; is it that which ONNX refuses?
